@@ -173,6 +173,7 @@ Section GridProofs.
       x <= gx ->
       (forall s, In s P -> sy s < y -> ~ covers s gx y) ->
       (forall x', x <= x' < gx -> exists s, In s P /\ sy s < y /\ covers s x' y) ->
+      1 <= clip (rowspan_of c) below ->
       row_placed P y below (gx + colspan_of c) cs out ->
       row_placed P y below x (c :: cs) (place c gx (clip (rowspan_of c) below) :: out).
 
@@ -180,8 +181,8 @@ Section GridProofs.
     (forall s, sy s < y -> (In s P <-> In s P')) ->
     row_placed P y below x cs out -> row_placed P' y below x cs out.
   Proof.
-    intros HP H. induction H as [x|x c cs gx out Hge Hfree Hocc Hrp IH]; [constructor|].
-    constructor; [assumption| | |assumption].
+    intros HP H. induction H as [x|x c cs gx out Hge Hfree Hocc Hclip Hrp IH]; [constructor|].
+    constructor; [assumption| | |assumption|assumption].
     - intros s Hs Hlt. apply Hfree; [apply HP|]; assumption.
     - intros x' Hx'. destruct (Hocc x' Hx') as (s & Hs & Hlt & Hc).
       exists s. split; [apply HP; assumption|split; assumption].
@@ -299,6 +300,7 @@ Section GridProofs.
       { constructor; auto.
         - intros s Hs Hlt Hc. pose proof (inv_c0 _ _ _ _ _ Hinv s gx Hs Hlt Hc). congruence.
         - intros x' Hx'. apply (inv_s0 _ _ _ _ _ Hinv). apply Hocc. assumption.
+        - fold below h. lia.
         - fold nx. rewrite Hlen1 in Hrp.
           eapply row_placed_weaken; [|exact Hrp].
           intros s Hlt. rewrite in_app_iff. simpl. split; [|tauto].
